@@ -87,11 +87,14 @@ type ScriptConn struct {
 	// what the peer receives is then not what was serialized for it.
 	mutBefore, mutAfter []byte
 	wdeadline           time.Time
-	wtimeouts           int
-	delivered           int
-	out                 []byte
-	closes              int
-	reads               int
+	// CloseErr, if set, is what Close returns although the connection is closed all the same - as tls.Conn.Close does
+	// when the close_notify alert cannot be sent any more.
+	CloseErr  error
+	wtimeouts int
+	delivered int
+	out       []byte
+	closes    int
+	reads     int
 	// incremental frame decoding of out
 	frames    []resp.Value
 	frameEnds []int
@@ -270,12 +273,12 @@ func (c *ScriptConn) Close() error {
 	defer c.mu.Unlock()
 	c.closes++
 	if c.closed {
-		return nil
+		return c.CloseErr
 	}
 	c.closed = true
 	c.Log.Add(c.ID, "close", "", 0)
 	c.cond.Broadcast()
-	return nil
+	return c.CloseErr
 }
 
 func (c *ScriptConn) LocalAddr() net.Addr  { return addr("server") }
